@@ -1,28 +1,57 @@
 """C16: harnesses and stages (loaded by bin/checks.py)."""
 
-HARNESSES = {'c16_tensor': {'src': ['harness/c16_tensor.cpp']}}
+_TYPES = ['int8', 'int16', 'int32', 'int64', 'uint8', 'uint16', 'uint32', 'uint64', 'float', 'double']
+
+# c16_impl.cpp is included by every unit (it plays the role of a header); one unit per scalar type keeps the
+# compile time and memory of the template-heavy checks bounded (the sanitizer build instantiates 4 of the 10)
+HARNESSES = {'c16_tensor': {'src': ['harness/c16_tensor.cpp'] + ['harness/c16_t_%s.cpp' % t for t in _TYPES]}}
 
 CHECKS = {'C16': {'level': 'exploration',
          'engine': 'E3 lattice',
-         'technique': 'bounded-exhaustive enumeration of tensor shapes x scalar types x every accessor argument, judged '
-                      'by value and by address against an odometer enumeration of the index tuples',
-         'level_text': 'placeholder',
-         'level_note': 'placeholder',
-         'rule': 'placeholder',
-         'assumptions': [],
+         'technique': 'bounded-exhaustive enumeration of tensor shapes x scalar types x every accessor argument '
+                      '(index tuples, index prefixes, slices, reshape factorisations, gather lists, removal masks, '
+                      'block splits), every result judged by value and by address against an odometer enumeration '
+                      'of the index tuples; second pass over exactly-sized heap blocks under ASan+UBSan',
+         'level_text': 'all 1804 shapes of rank 1..4 with dimensions 0..4 and rank 5 with dimensions 0..3 (thorough: '
+                       'rank 5 up to 4, 3905 shapes) x 10 scalar types x 4 storages are enumerated completely together '
+                       'with every valid argument of offset/offset0/dims0/operator()/vector/array/matrix/tensor/'
+                       'slice/reshape/indexed, 19 storage conversions, integral, remove_if (all 2^n masks, n<=4) and '
+                       'stack (all 2-block and 2x2 splits up to 4x4); this is a complete small-scope enumeration, not '
+                       'a proof for larger dimensions or ranks above 5 (40 larger shapes up to 1e5 elements are a '
+                       'finite list with sampled views)',
+         'level_note': 'trusted: the odometer oracle (lexicographic enumeration of index tuples, no stride '
+                       'arithmetic), Eigen::Map element access, g++ 12 / ASan+UBSan runtime, modular narrowing '
+                       'conversions of g++ for the 8/16-bit fill values',
+         'rule': 'bounded-exhaustive enumeration (E3). One evaluation = one accessor call (or one element read/written '
+                 'through a view) compared with the oracle. Non-trivial = the judged element or view has a non-zero '
+                 'expected offset (full indexing: tuple number > 0; prefix views: something precedes the view; slices: '
+                 'non-empty and not the whole tensor), reshape of more than one element into >= 2 factors or with an '
+                 'inferred -1, gathers that reach an index > 0 of a non-empty tensor, conversions/integral of non-empty '
+                 'tensors (integral: > 1 element), remove_if runs in which at least one sub-tensor moves, every stack',
+         'assumptions': ['reshape with a -1 next to a zero dimension (not uniquely determined; the documentation asks for '
+                         'positive remaining dimensions) is outside the judged alphabet; what the call does is recorded '
+                         'in the note reshape_minus_one_next_to_zero_probe of the evidence',
+                         'empty index lists for indexed() and empty blocks for stack() are not part of the alphabet '
+                         '(the library asserts on them / documents "without gaps")',
+                         'element blocks of owning tensors are allocated by Eigen; out-of-block accesses are observable '
+                         'for them only through ASan, for mapped tensors also through canary zones',
+                         'integral into the input scalar type is judged only where every prefix sum is representable'],
          'deadline': {'quick': 150, 'thorough': 900},
          'stages': [{'name': 'rel',
                      'harness': 'c16_tensor',
                      'args': ['--stage', 'rel'],
-                     'share': 0.6,
+                     'args_thorough': ['--maxdim5', '4', '--large_types', 'int16,int32,uint64,float,double'],
+                     'share': 0.5,
                      'crash_is_violation': True,
-                     'what': 'value/offset oracle'},
+                     'what': 'value/address oracle on all shapes x 10 scalar types x owning/const/map/cmap storages; '
+                             'harness-owned blocks carry canary zones'},
                     {'name': 'asan',
                      'harness': 'c16_tensor',
                      'variant': 'asan',
                      'args': ['--stage', 'asan'],
                      'args_quick': ['--types', 'int8,double'],
                      'args_thorough': ['--types', 'int8,int32,uint64,double'],
-                     'share': 0.4,
+                     'share': 0.5,
                      'crash_is_violation': True,
-                     'what': 'same lattices, exact heap blocks under ASan+UBSan'}]}}
+                     'what': 'the same lattices with every harness-owned element block exactly sized, ASan+UBSan build: '
+                             'any out-of-block access, division by zero or other UB inside a judged call aborts the case'}]}}
